@@ -467,7 +467,22 @@ pub async fn build_history(spec: &HistSpec) -> Built {
         }
         let rs = match node.add_guarded(b.clone()).await {
             Some(r) => res_str(&r),
-            None => "panicked",
+            None => {
+                // honest block, honest ancestors only: the builder itself is the code under test
+                let mut tainted = false;
+                let mut a = Some(pidx);
+                while let Some(i) = a {
+                    if invalid[i].is_some() {
+                        tainted = true;
+                        break;
+                    }
+                    a = parent[i];
+                }
+                if !tainted {
+                    crate::ctx::note_builder_abort();
+                }
+                "panicked"
+            }
         };
         if rs == "added_lc" {
             blocks.push(b.clone());
